@@ -139,7 +139,9 @@ def for_property(prop: str, repo: str = '/repo', jobs: int = 16):
     if recorded != cur:
         return {'ran': False, 'reason': 'the analysed tree differs from the one the corpus was validated on (digest %s... vs %s...); '
                                         'corpus patches are textual, self-test skipped' % (cur[:12], recorded[:12])}
-    entries = [e for e in CORPUS if prop in e['props']]
+    # only this property's check is run on an entry (a benign entry names all twenty: the other nineteen are re-validated by
+    # their own thorough runs)
+    entries = [dict(e, props=[prop]) for e in CORPUS if prop in e['props']]
     res = run_entries(entries, repo, jobs)
     return {'ran': True, 'entries': len(res), 'mutants': sum(1 for e in entries if e['expect'] == 'violation'),
             'benign': sum(1 for e in entries if e['expect'] != 'violation'),
